@@ -1,3 +1,125 @@
-(* C18 — property theorems (being filled in). *)
-From QT Require Import C18.Spec.
+(* C18 — property theorems.  Statements only: each is closed by [exact] of a lemma proved elsewhere.
+   [run cfg st0 rs] is the state after ANY request sequence rs (API GET / DELETE with raw query arguments, value changes,
+   clock advances) from ANY store and clock with an empty cache: so "for every reachable state of the sample cache".
+   [abstract] (Spec.v) says which effective request the raw arguments denote (defaults and validation). *)
+From QT Require Import C18.Spec C18.SortThm C18.ApiThm C18.CacheThm C18.MainThm.
 Open Scope Z_scope.
+
+(* a range query answers exactly the stored samples of that port with from <= time < to, oldest first, at most
+   `limit` of them counted from the start of that order, typed like the port; the state is unchanged *)
+Theorem C18_slice : forall cfg st0 rs p q k from to limit,
+  let st := fst (run cfg st0 rs) in
+  abstract cfg (st_now st) (ApiGet p q) = ASlice p k from to limit ->
+  step cfg st (ApiGet p q)
+  = (st, RSamples (map (fun s => (s_ts s, typed_like k (s_val s)))
+                       (firstn (Z.to_nat limit) (sort_by_ts (filter (in_range p from to) (st_store st)))))).
+Proof. exact slice_exact. Qed.
+Print Assumptions C18_slice.
+
+(* "oldest first" pinned down without an algorithm: ascending timestamps, and under every timestamp exactly the input's
+   samples with that timestamp in stored order; any list with these two properties is that list *)
+Theorem C18_sort_by_ts_meaning : forall l,
+  Sorted.StronglySorted le_ts (sort_by_ts l) /\ forall k, filter (at_ts k) (sort_by_ts l) = filter (at_ts k) l.
+Proof. exact sort_by_ts_characterized. Qed.
+Print Assumptions C18_sort_by_ts_meaning.
+
+Theorem C18_sort_by_ts_unique : forall r1 r2,
+  Sorted.StronglySorted le_ts r1 -> Sorted.StronglySorted le_ts r2 ->
+  (forall k, filter (at_ts k) r1 = filter (at_ts k) r2) -> r1 = r2.
+Proof. exact sorted_unique. Qed.
+Print Assumptions C18_sort_by_ts_unique.
+
+(* a query by timestamps answers one entry per requested timestamp, in request order (duplicates included), each the
+   newest sample at or before that timestamp or null — in every cache state reachable by previous requests *)
+Theorem C18_by_timestamp : forall cfg st0 rs p q k tss,
+  0 <= cfg_min_age cfg -> st_cache st0 = [] ->
+  let st := fst (run cfg st0 rs) in
+  abstract cfg (st_now st) (ApiGet p q) = AByTimestamp p k tss ->
+  snd (step cfg st (ApiGet p q))
+  = REntries (map (fun t => option_map (fun s => (t, typed_like k (s_val s))) (newest_at_or_before (st_store st) p t)) tss)
+  /\ st_store (fst (step cfg st (ApiGet p q))) = st_store st.
+Proof. exact by_timestamp_exact. Qed.
+Print Assumptions C18_by_timestamp.
+
+(* the invariant behind it: after any request sequence a cached entry is older than the cache age and equals what the
+   store would answer now *)
+Theorem C18_cache_invariant : forall cfg rs st0,
+  0 <= cfg_min_age cfg -> st_cache st0 = [] ->
+  forall p t v, cache_get (st_cache (fst (run cfg st0 rs))) p t = Some v ->
+    t + cfg_min_age cfg < st_now (fst (run cfg st0 rs))
+    /\ exists k, port_kind cfg p = Some k
+                 /\ v = option_map (fun s => typed_like k (s_val s)) (newest_at_or_before (st_store (fst (run cfg st0 rs))) p t).
+Proof. exact (fun cfg rs st0 A E => run_reaches_ok cfg st0 rs A E). Qed.
+Print Assumptions C18_cache_invariant.
+
+(* "newest at or before" pinned down: a sample with the largest timestamp among the candidates, the first stored one *)
+Theorem C18_newest_meaning : forall l,
+  match newest l with
+  | None => l = []
+  | Some b => exists l1 l2, l = l1 ++ b :: l2
+                            /\ Forall (fun s => s_ts s < s_ts b) l1 /\ Forall (fun s => s_ts s <= s_ts b) l2
+  end.
+Proof. exact newest_characterized. Qed.
+Print Assumptions C18_newest_meaning.
+
+(* deletion removes exactly the samples of that port in the half-open range, and keeps the others in order *)
+Theorem C18_delete_exact : forall cfg st p q from to,
+  abstract cfg (st_now st) (ApiDelete p q) = ADelete p from to ->
+  snd (step cfg st (ApiDelete p q)) = RDone
+  /\ st_store (fst (step cfg st (ApiDelete p q))) = filter (fun s => negb (in_range p (Some from) to s)) (st_store st).
+Proof. exact delete_exact. Qed.
+Print Assumptions C18_delete_exact.
+
+Theorem C18_delete_membership : forall st p from to s,
+  In s (delete_spec st p from to) <-> In s st /\ ~ (s_oid s = p /\ from <= s_ts s < to).
+Proof. exact delete_membership. Qed.
+Print Assumptions C18_delete_membership.
+
+(* a value change of a port with on-change history (history_interval = -1, real date/time) appears as exactly one sample *)
+Theorem C18_change_recorded_once : forall cfg st p v,
+  port_on_change cfg p = true -> cfg_real_ms cfg < st_now st ->
+  step cfg st (ValueChange p (Some v))
+  = ({| st_store := st_store st ++ [(p, st_now st, v)]; st_cache := st_cache st; st_now := st_now st |}, RNone).
+Proof. exact change_recorded_once. Qed.
+Print Assumptions C18_change_recorded_once.
+
+(* nothing else touches the stored samples: refused requests, queries, value changes that are not recorded, the clock *)
+Theorem C18_store_only_changes_by_delete_or_record : forall cfg st r,
+  match abstract cfg (st_now st) r with
+  | ADelete _ _ _ | ARecord _ _ => True
+  | _ => st_store (fst (step cfg st r)) = st_store st
+  end.
+Proof. exact store_only_changes_by_delete_or_record. Qed.
+Print Assumptions C18_store_only_changes_by_delete_or_record.
+
+(* all of the above at once: the model run and the specification's abstract machine (a sample list and a clock, no
+   cache) end with the same samples and clock, and every answer the specification prescribes is the answer given *)
+Theorem C18_run_refines_spec : forall cfg rs st0,
+  0 <= cfg_min_age cfg -> cache_ok cfg st0 ->
+  fst (spec_run cfg (st_store st0, st_now st0) rs) = (st_store (fst (run cfg st0 rs)), st_now (fst (run cfg st0 rs)))
+  /\ Forall2 agrees (snd (run cfg st0 rs)) (snd (spec_run cfg (st_store st0, st_now st0) rs)).
+Proof. exact run_refines_spec. Qed.
+Print Assumptions C18_run_refines_spec.
+
+(* non-vacuity: the premises are met by concrete requests; a cached answer is served (after the first request the cache
+   holds timestamp 1500) in the request's order, with the duplicate, and after DELETE the cache is gone *)
+Example C18_nonvacuous :
+  let cfg := {| cfg_ports := [(1, (KNum, true)); (3, (KBool, false))]; cfg_min_age := 3600000; cfg_real_ms := 1546304400000 |} in
+  let st0 := {| st_store := [(1, 1000, 6); (1, 2000, 10); (1, 2000, 28); (3, 2000, 0); (1, 3000, -15)];
+                st_cache := []; st_now := 1700000000000 |} in
+  let byts l := {| q_from := QAbsent; q_to := QAbsent; q_limit := QAbsent; q_timestamps := Some (map QInt l) |} in
+  let range f t n := {| q_from := f; q_to := t; q_limit := n; q_timestamps := None |} in
+  abstract cfg 1700000000000 (ApiGet 1 (byts [2500; 1500; 2500])) = AByTimestamp 1 KNum [2500; 1500; 2500]
+  /\ abstract cfg 1700000000000 (ApiGet 1 (range (QInt 1000) (QInt 3000) (QInt 2))) = ASlice 1 KNum (Some 1000) 3000 2
+  /\ abstract cfg 1700000000000 (ApiGet 1 (range QEmpty QAbsent QAbsent)) = ASlice 1 KNum None 1700000000000 1000
+  /\ abstract cfg 1700000000000 (ApiDelete 1 (range (QInt 2000) (QInt 3000) QAbsent)) = ADelete 1 2000 3000
+  /\ snd (run cfg st0 [ApiGet 1 (byts [1500]); ApiGet 1 (byts [2500; 1500; 2500]);
+                       ApiGet 1 (range (QInt 1000) (QInt 3000) (QInt 2)); ValueChange 1 (Some 5);
+                       ApiDelete 1 (range (QInt 2000) (QInt 3000) QAbsent); ApiGet 1 (byts [2500])])
+     = [REntries [Some (1500, VNum 6)];
+        REntries [Some (2500, VNum 10); Some (1500, VNum 6); Some (2500, VNum 10)];
+        RSamples [(1000, VNum 6); (2000, VNum 10)]; RNone; RDone; REntries [Some (2500, VNum 6)]]
+  /\ st_cache (fst (run cfg st0 [ApiGet 1 (byts [1500])])) = [(1, 1500, Some (VNum 6))]
+  /\ st_store (fst (run cfg st0 [ValueChange 1 (Some 5); ApiDelete 1 (range (QInt 2000) (QInt 3000) QAbsent)]))
+     = [(1, 1000, 6); (3, 2000, 0); (1, 3000, -15); (1, 1700000000000, 5)].
+Proof. vm_compute. repeat split. Qed.
